@@ -8,7 +8,10 @@ import re
 from collections import Counter
 from typing import Optional
 
-from .extract import _COPYRIGHT_PATTERNS  # TODO: Get rid of this import.
+from .extract import (  # TODO: Get rid of this import.
+    _COPYRIGHT_PATTERNS,
+    _first_copyright_match,
+)
 
 _COPYRIGHT_PREFIXES = {
     "spdx": "SPDX-FileCopyrightText:",
@@ -34,19 +37,15 @@ def merge_copyright_lines(copyright_lines: set[str]) -> set[str]:
     # TODO: Rewrite this function. It's a bit of a mess.
     copyright_in = []
     for line in copyright_lines:
-        for pattern in _COPYRIGHT_PATTERNS:
-            match = pattern.search(line)
-            if match is not None:
-                copyright_in.append(
-                    {
-                        "statement": match.groupdict()["statement"],
-                        "year": _parse_copyright_year(
-                            match.groupdict()["year"]
-                        ),
-                        "prefix": match.groupdict()["prefix"],
-                    }
-                )
-                break
+        match = _first_copyright_match(line)
+        if match is not None:
+            copyright_in.append(
+                {
+                    "statement": match.groupdict()["statement"],
+                    "year": _parse_copyright_year(match.groupdict()["year"]),
+                    "prefix": match.groupdict()["prefix"],
+                }
+            )
 
     copyright_out = set()
     for line_info in copyright_in:
